@@ -26,6 +26,7 @@ package obfs
 //   keys   keys of 0..3 bytes are refused (short-key-accepted).
 
 import (
+	"runtime/debug"
 	"bytes"
 	"encoding/hex"
 	"fmt"
@@ -118,7 +119,10 @@ func c13Len(r *hysim.Rand) int64 {
 
 func c13Gen(r *hysim.Rand, tier string) *hysim.Script {
 	sc := &hysim.Script{Cfg: map[string]int64{}}
-	if r.Chance(1, 3) {
+	if r.Chance(1, 8) {
+		// long keys: the key input of the hash crosses BLAKE2b's 128-byte block
+		sc.Cfg["klen"] = int64(r.Pick(65, 119, 120, 121, 127, 128, 129, 200, 512, 1024))
+	} else if r.Chance(1, 3) {
 		sc.Cfg["klen"] = int64(r.Pick(4, 4, 5, 8, 31, 32, 33, 63, 64))
 	} else {
 		sc.Cfg["klen"] = int64(r.Range(4, 64))
@@ -182,6 +186,13 @@ func c13Gen(r *hysim.Rand, tier string) *hysim.Script {
 		default:
 			sc.Ops = append(sc.Ops, hysim.Op{K: "t", A: []int64{r.LogUniform(1, 20000)}})
 		}
+	}
+	if r.Chance(1, 40) {
+		// a long uninterrupted run of junk (a flood, a scanner): dropping must cost nothing per
+		// packet - the run executes under a small goroutine stack limit
+		at := r.Intn(len(sc.Ops) + 1)
+		jf := hysim.Op{K: "jf", A: []int64{int64(r.Intn(2)), int64(r.Pick(3000, 6000)), int64(r.Uint64() >> 1)}}
+		sc.Ops = append(sc.Ops[:at], append([]hysim.Op{jf}, sc.Ops[at:]...)...)
 	}
 	if r.Chance(1, zr) {
 		for k := r.Range(1, 2); k > 0; k-- {
@@ -461,8 +472,8 @@ func c13Exec(x *hysim.Run) {
 	if klen < 4 {
 		klen = 4
 	}
-	if klen > 64 {
-		klen = 64
+	if klen > 1024 {
+		klen = 1024
 	}
 	w.key = c13Bytes(sc.Get("kseed", 1), klen)
 	us := func(k string) time.Duration { return time.Duration(sc.Get(k, 0)) * time.Microsecond }
@@ -568,6 +579,7 @@ func c13Exec(x *hysim.Run) {
 		return &net.UDPAddr{IP: net.IPv4(10, 9, 0, byte(1+i%3)), Port: 7000 + int(i%3)}
 	}
 	var zops []hysim.Op
+	stackLimited := false
 	for _, op := range sc.Ops {
 		side := w.sides[int(op.Arg(0))&1]
 		switch op.K {
@@ -605,6 +617,26 @@ func c13Exec(x *hysim.Run) {
 					w.account(side, src, d)
 				}
 			}
+		case "jf":
+			if !stackLimited {
+				stackLimited = true
+				prev := debug.SetMaxStack(512 << 10)
+				defer debug.SetMaxStack(prev)
+			}
+			n := clamp(op.Arg(1), 1, 7000)
+			src := junkSrc(1, side)
+			jr := hysim.NewRand(uint64(op.Arg(2)), 0xC13F)
+			x.Ev("J flood -> s%d: %d consecutive junk datagrams of 1..8 bytes from %v", side.idx, n, src)
+			for k := 0; k < n; k++ {
+				d := jr.Bytes(jr.Range(1, 8))
+				if w.f.Inject(src, side.addr.String(), d) {
+					w.account(side, src, d)
+				}
+				if k%512 == 511 {
+					time.Sleep(time.Millisecond) // the readers drain the socket
+				}
+			}
+			x.Probe("junk-flood")
 		case "t":
 			time.Sleep(time.Duration(clamp(op.Arg(0), 0, 1000000)) * time.Microsecond)
 		case "z":
